@@ -8,23 +8,14 @@ set_option linter.unusedSimpArgs false
 
 namespace Mrm
 
-/-- a child list on which the lookups behave: every `tag` child has its ID tag, IDs are non-blank
-    and unique -/
+/-- a child list on which the lookups behave: the IDs of the `tag` children are non-blank and unique -/
 structure Good (tag : String) (cs : List Xml) : Prop where
-  wf : WfKids tag cs = true
   nd : (keysOf tag cs).Nodup
   sm : ∀ x ∈ keysOf tag cs, x.isSome = true
 
 /-- the outcome has no error, the given key sequence, and the same non-`tag` children -/
 def Eff (tag : String) (cs : List Xml) (o : Out) (newkeys : List Key) : Prop :=
   o.err = none ∧ keysOf tag o.kids = newkeys ∧ nk (kt tag) o.kids = nk (kt tag) cs
-
-theorem WfKids_eraseIdx_o {tag : String} {cs : List Xml} (i : Nat) (h : WfKids tag cs = true) :
-    WfKids tag (cs.eraseIdx i) = true := by
-  unfold WfKids at *
-  rw [List.all_eq_true] at *
-  intro x hx
-  exact h x (List.mem_of_mem_eraseIdx hx)
 
 theorem Good.locate_mem {tag : String} {cs : List Xml} (g : Good tag cs) {id : Key}
     (h : id ∈ keysOf tag cs) : locate tag cs id = some (idx (kt tag) cs id) :=
@@ -46,7 +37,7 @@ theorem deleteLoop_eff (tag : String) (w : Warn) (ids : List Key) :
   | cons id ids ih =>
     intro cs ws g
     unfold deleteLoop
-    rw [findChildId_ok tag cs id g.wf]
+    rw [findChildId_ok tag cs id]
     by_cases hm : id ∈ keysOf tag cs
     · rw [g.locate_mem hm]
       simp only
@@ -54,7 +45,7 @@ theorem deleteLoop_eff (tag : String) (w : Warn) (ids : List Key) :
       obtain ⟨e1, e2⟩ := eraseIdx_idx (kt tag) g.nd' hm'
       rw [← keysOf_eq_ks, ← keysOf_eq_ks] at e1
       have g' : Good tag (cs.eraseIdx (idx (kt tag) cs id)) := by
-        refine ⟨WfKids_eraseIdx_o _ g.wf, ?_, ?_⟩
+        refine ⟨?_, ?_⟩
         · rw [e1]; exact g.nd.sublist List.filter_sublist
         · rw [e1]; intro x hx; exact g.sm x (List.mem_filter.mp hx).1
       obtain ⟨h1, h2, h3⟩ := ih _ ws g'
@@ -77,15 +68,15 @@ theorem deleteLoop_eff (tag : String) (w : Warn) (ids : List Key) :
 
 theorem Good.findChildId_mem {tag : String} {cs : List Xml} (g : Good tag cs) {id : Key}
     (h : id ∈ keysOf tag cs) : findChildId cs tag id = .ok (some (idx (kt tag) cs id)) := by
-  rw [findChildId_ok tag cs id g.wf, g.locate_mem h]
+  rw [findChildId_ok tag cs id, g.locate_mem h]
 
 theorem Good.findRequired_mem {tag : String} {cs : List Xml} (g : Good tag cs) (mid : Option PyExc)
     {id : Key} (h : id ∈ keysOf tag cs) : findRequired tag mid cs id = .ok (idx (kt tag) cs id) := by
-  rw [findRequired_ok tag mid cs id g.wf, g.locate_mem h]
+  rw [findRequired_ok tag mid cs id, g.locate_mem h]
 
 theorem Good.findTarget_mem {tag : String} {cs : List Xml} (g : Good tag cs) (mid : Option PyExc)
     {id : Key} (h : id ∈ keysOf tag cs) : findTarget tag mid cs id = .ok (some (idx (kt tag) cs id)) := by
-  rw [findTarget_ok tag mid cs id g.wf]
+  rw [findTarget_ok tag mid cs id]
   have hs := g.sm id h
   cases id with
   | none => cases hs
